@@ -766,6 +766,7 @@ ensures
         r.fin_ok() && r.waiting_ok() && r.retained_ok(),
         r.hi() == 0 && r.lo() == 0,
         r.slot_states@ == Map::<Slot, SlotState>::empty(),
+        r.epoch_info == epoch_info,
 @*/
 /*@ extract src/consensus/pool.rs :: impl PoolImpl/fn first_unpruned_slot
 props C08 C04
@@ -1385,6 +1386,39 @@ blockend `vassert(block_id.0 > parent_id.0);`
             assert(f.waits(parent_id, block_id));
         }
 @*/
+}
+
+// C18, receiver side: "a node that starts from an empty state and receives only this bundle reaches the same highest finalized
+// slot".  The scenario is written out over the two real functions under their proved contracts: a fresh pool is handed the
+// first certificate of a bundle (a certificate of the sender's highest finalized slot).  KNOWN FINDING (known_findings.txt): the
+// fresh pool applies its own slot window, [0, 2 * SLOTS_PER_EPOCH), so the certificate is refused as SlotOutOfBounds as soon as
+// the sender has finalized slot 36000 or later (demo: findings/C18_fresh_receiver_demo.diff).
+pub fn verif_fresh_receiver_of_a_bundle(epoch_info: Arc<ValidatorEpochInfo>, votor_event_channel: Sender<PoolEvent>,
+        repair_channel: Sender<BlockId>, cert: ValidatedCert) -> (r: Result<(), AddCertError>)
+    requires
+        spec_fresh_slot_state(Slot(0), epoch_info).wf_epoch(),
+    ensures
+        // [C18.fresh_receiver_accepts_the_proof_of_the_finalized_slot]
+        r is Ok,
+{
+    let mut fresh = PoolImpl::new(epoch_info, votor_event_channel, repair_channel);
+    proof { broadcast use axiom_fresh_slot_state; }
+    fresh.add_cert(cert)
+}
+// the same scenario for a bundle from the first 2 * SLOTS_PER_EPOCH slots of the chain: accepted (so the failing obligation above is
+// about the window, not about a fresh pool as such)
+pub fn verif_fresh_receiver_of_an_early_bundle(epoch_info: Arc<ValidatorEpochInfo>, votor_event_channel: Sender<PoolEvent>,
+        repair_channel: Sender<BlockId>, cert: ValidatedCert) -> (r: Result<(), AddCertError>)
+    requires
+        spec_fresh_slot_state(Slot(0), epoch_info).wf_epoch(),
+        cert.cert.spec_slot().0 < 2 * SLOTS_PER_EPOCH,
+    ensures
+        // [C18.fresh_receiver_accepts_an_early_bundle]
+        r is Ok,
+{
+    let mut fresh = PoolImpl::new(epoch_info, votor_event_channel, repair_channel);
+    proof { broadcast use axiom_fresh_slot_state; }
+    fresh.add_cert(cert)
 }
 
 impl PoolImpl {
